@@ -154,6 +154,7 @@ type Env struct {
 	simSeconds float64
 	frozen  bool
 	KnownHits map[string]int
+	FingerprintAs string
 	// anchors: simulated instants from which the engine arms its timers (every engine timer is due a
 	// multiple of 0.2 s after one of them): last engine write, last peer feed, last connection open, last
 	// engine Logout, plus instants added by workloads.
@@ -311,6 +312,12 @@ func (e *Env) Note(format string, a ...any) {
 func (e *Env) Violate(fingerprint, format string, a ...any) {
 	e.mu.Lock()
 	defer e.mu.Unlock()
+	if e.FingerprintAs != "" {
+		// the run was set up around one specific condition (see the workload): whatever rule notices its
+		// consequences, it is that condition's fingerprint
+		format = "[" + fingerprint + "] " + format
+		fingerprint = e.FingerprintAs
+	}
 	if KnownFingerprints[fingerprint] {
 		// a recorded known finding: counted, reported as KNOWN-FINDING by the runner, and the run goes
 		// on so that it cannot hide a different violation later in the same run
